@@ -37,6 +37,31 @@ CHECKS = {
        "(KF-C20-1..3) are keyed by clause and type shape.",
   tech="TLC checks order laws on the recorded table of the real relation (all pairs/triples of a TLA+-defined universe)",
   ref="DESIGN.md 9/C20"),
+ "C05": dict(
+  text="TLC enumerates the probe grid of spec/MC_C05.tla (for calls, method calls, constructor calls, returns and annotated "
+       "initialisers: the conforming use and every single-point non-conforming mutation, plugged by MambaSyntax.Plug under every "
+       "context nesting, setup inside or hoisted); the real pipeline's verdicts (annotate off and on) are recorded and judged by "
+       "TLC (spec/VerdictJudge.tla), which recomputes the expected verdict from the probe's parameters with the rules of "
+       "spec/MambaStatic.tla (CallOK, ReturnOK, InitOK) - both directions: non-conforming accepted and conforming rejected.",
+  note="Trusted: lib/render.py (abstract syntax to text). Subtyping limited to Int <: Float <: Complex, inheritance, Any. "
+       "`pass` is not used as branch filler (the checker types it as None next to a return; noted in DESIGN.md).",
+  tech="TLA+ static rules as oracle; TLC-enumerated probe x context grid; TLC judges recorded compiler verdicts",
+  ref="DESIGN.md 9/C05"),
+ "C06": dict(
+  text="Same machinery as C05 with the grid of spec/MC_C06.tla: type x position (initialiser, reassignment, field write, "
+       "function/constructor argument, return value, operand/receiver) x source (None, T?, T, x ? d) x target (T, T?); expected "
+       "verdict MambaStatic.SubN, recomputed by the TLC judge from the parameters; both directions.",
+  note="Trusted: lib/render.py. One open known finding (KF-C06-1, Bool literal as implicit return of '-> Bool?').",
+  tech="TLA+ nullable subtyping rule as oracle; TLC-enumerated grid; TLC judges recorded verdicts",
+  ref="DESIGN.md 9/C06"),
+ "C07": dict(
+  text="Same machinery with the grid of spec/MC_C07.tla: definition form x fin/mutable x write (:=, +=) x path (direct, "
+       "receiver, fin receiver, self, fin self) x shadowing patterns, under every context nesting, definition inside or "
+       "hoisted; expected verdict MambaStatic.WriteOK (defined, mutable, every receiver mutable).",
+  note="Trusted: lib/render.py. Loop variables: both verdicts allowed (undocumented). Open known finding KF-C07-1 (fin "
+       "fields / class arguments writable through self or a mutable receiver).",
+  tech="TLA+ mutability rule as oracle; TLC-enumerated grid; TLC judges recorded verdicts",
+  ref="DESIGN.md 9/C07"),
 }
 
 PENDING_REASON = "check not built yet in this snapshot (work in progress; see DESIGN.md section 13)"
